@@ -173,3 +173,7 @@ bitflags! {
         const OA = Self::OPTIONAL.bits() | Self::ARRAY.bits();
     }
 }
+
+#[cfg(any(kani, verif_replay))]
+#[path = "/verif/kani/privilege.rs"]
+pub(crate) mod verif_kani_privilege;
